@@ -500,9 +500,32 @@ func bucket(n int) int {
 }
 
 // runStable checks CopyStable: the three raft keys and any extra keys.
+// splitStable is a StableStore whose byte values and uint64 values live in
+// separate key spaces (like raft.InmemStore): the same key name may hold one of
+// each.
+type splitStable struct {
+	kv  map[string][]byte
+	kvU map[string]uint64
+}
+
+func newSplitStable() *splitStable {
+	return &splitStable{kv: map[string][]byte{}, kvU: map[string]uint64{}}
+}
+func (s *splitStable) Set(k, v []byte) error            { s.kv[string(k)] = append([]byte(nil), v...); return nil }
+func (s *splitStable) Get(k []byte) ([]byte, error)      { return append([]byte(nil), s.kv[string(k)]...), nil }
+func (s *splitStable) SetUint64(k []byte, v uint64) error { s.kvU[string(k)] = v; return nil }
+func (s *splitStable) GetUint64(k []byte) (uint64, error) { return s.kvU[string(k)], nil }
+
 func (c *c19) runStable(logf func(string, ...interface{})) {
 	tp := c.tp
-	src, dst := newMemStore(), newMemStore()
+	var src, dst raft.StableStore = newMemStore(), newMemStore()
+	// a third of the runs: stores with separate key spaces for byte and uint64
+	// values, and key names that occur in both lists (an extra key named like an
+	// int key, a standard int key's name listed among the byte keys)
+	split := tp.Choose(3) == 0
+	if split {
+		src, dst = newSplitStable(), newSplitStable()
+	}
 	want := map[string]string{}
 	wantU := map[string]uint64{}
 	setU := func(k string) {
@@ -532,6 +555,25 @@ func (c *c19) runStable(logf func(string, ...interface{})) {
 		k := fmt.Sprintf("extraInt%d", i)
 		setU(k)
 		extraInt = append(extraInt, []byte(k))
+	}
+	if split {
+		for i := 0; i < 1+tp.Choose(2); i++ {
+			k := fmt.Sprintf("both%d", i)
+			set(k)
+			setU(k)
+			extra = append(extra, []byte(k))
+			extraInt = append(extraInt, []byte(k))
+			c.probes.Add("stable_key_in_both_spaces", 1)
+		}
+		if tp.Choose(2) == 0 {
+			k := []string{"CurrentTerm", "LastVoteTerm"}[tp.Choose(2)]
+			set(k)
+			extra = append(extra, []byte(k))
+		}
+		if tp.Choose(2) == 0 {
+			setU("LastVoteCand")
+			extraInt = append(extraInt, []byte("LastVoteCand"))
+		}
 	}
 	var progress chan string
 	if tp.Choose(2) == 0 {
